@@ -126,18 +126,29 @@ Definition cache_read (i : N) : M block :=
 Definition cache_modify (f : block -> block) : M unit :=
   modify (fun s => set_s_cache s (f (s_cache s))).
 
+(* a failed write invalidates the cache tag (the device does not hold the cached block) *)
 Definition write_back : M unit :=
   s <- get ;;
   match s_tag s with
   | None => panic                      (* expect("write_back with no read") *)
-  | Some i => dev_write i (s_cache s)
+  | Some i =>
+      r <- try (dev_write i (s_cache s)) ;;
+      match r with
+      | inl _ => ret tt
+      | inr e => modify (fun s => set_s_tag s None) ;;; fail e
+      end
   end.
 
 Definition write_back_with_duplicate (dup : N) : M unit :=
   s <- get ;;
   match s_tag s with
   | None => panic
-  | Some i => dev_write i (s_cache s) ;;; dev_write dup (s_cache s)
+  | Some i =>
+      r <- try (dev_write i (s_cache s)) ;;
+      match r with
+      | inl _ => dev_write dup (s_cache s)
+      | inr e => modify (fun s => set_s_tag s None) ;;; fail e
+      end
   end.
 
 Definition blank_mut (i : N) : M unit :=
